@@ -673,6 +673,45 @@ func (L *Locks) AccessesOf(field *types.Var) []FieldAccess {
 					}
 				}
 				out = append(out, FieldAccess{f, at, w, it.fresh, L.atInstr(at)})
+				// a map (or slice) header loaded from the field is an alias of
+				// the guarded storage: every later iteration step or element
+				// access through it is an access of the field at that point
+				switch x.Type().Underlying().(type) {
+				case *types.Map, *types.Slice:
+					if lr := x.Referrers(); lr != nil {
+						for _, r2 := range *lr {
+							switch y := r2.(type) {
+							case *ssa.Range:
+								if y.X != ssa.Value(x) || y.Referrers() == nil {
+									continue
+								}
+								for _, r3 := range *y.Referrers() {
+									if nx, ok := r3.(*ssa.Next); ok {
+										out = append(out, FieldAccess{f, nx, false, it.fresh, L.atInstr(nx)})
+									}
+								}
+							case *ssa.Lookup:
+								if y.X == ssa.Value(x) {
+									out = append(out, FieldAccess{f, y, false, it.fresh, L.atInstr(y)})
+								}
+							case *ssa.IndexAddr:
+								if y.X != ssa.Value(x) || y.Referrers() == nil {
+									continue
+								}
+								for _, r3 := range *y.Referrers() {
+									switch z := r3.(type) {
+									case *ssa.UnOp:
+										out = append(out, FieldAccess{f, z, false, it.fresh, L.atInstr(z)})
+									case *ssa.Store:
+										if z.Addr == ssa.Value(y) {
+											out = append(out, FieldAccess{f, z, true, it.fresh, L.atInstr(z)})
+										}
+									}
+								}
+							}
+						}
+					}
+				}
 			case *ssa.Phi:
 				push(x, it.fresh)
 			case *ssa.Return:
